@@ -85,6 +85,30 @@ Theorem cycle_numbers_increment_without_kill :
 Proof. exact cycle_numbers_without_kill_ok. Qed.
 Print Assumptions cycle_numbers_increment_without_kill.
 
+(* Restarts.  Hypothesis about the file system, stated in Model/Crawler.v
+   (torn_save): save_state writes a temporary file and renames it over the state
+   file, and the rename is atomic, so a process that dies or runs out of disk
+   space inside save_state leaves the previous or the new state (the driver
+   injects crashes after 0, half and all bytes of the write and checks exactly
+   this on the real code).  Under it a crash inside save_state is one of the
+   kill points of the model, and a restarted crawler starts from the state the
+   slice began with or from a state written during the slice, never from
+   scratch; cycle_numbers_increment then says the completed-cycle count never
+   goes back. *)
+Theorem restart_resumes_from_a_saved_state :
+  forall dirs m s evs m' k,
+    sl_kill s = Some k -> do_slice dirs m s = (evs, m') ->
+    m' = load (ms_p m) \/ exists p, In (ESave p) evs /\ m' = load p.
+Proof. exact restart_state_ok. Qed.
+Print Assumptions restart_resumes_from_a_saved_state.
+
+Theorem crash_inside_save_state_is_a_kill_point :
+  forall dirs m ticks k t evs m',
+    do_slice dirs m (mk_slice ticks (crash_in_save k t)) = (evs, m') ->
+    m' = load (ms_p m) \/ exists p, In (ESave p) evs /\ m' = load p.
+Proof. exact crash_in_save_ok. Qed.
+Print Assumptions crash_inside_save_state_is_a_kill_point.
+
 (* The regenerated prefix table is what the proofs need: strictly increasing,
    2**prefix_bits names. *)
 Theorem prefix_table_sorted : Sorted.StronglySorted CrawlerOrder.nlt prefixes.
@@ -98,9 +122,11 @@ Print Assumptions prefix_table_size.
 (* Fingerprints of the source functions the model was written for. *)
 Theorem crawler_pins :
   (pin_crawler_init, pin_crawler_load_state, pin_crawler_save_state, pin_crawler_start_slice,
-   pin_crawler_start_current_prefix, pin_crawler_process_prefixdir)
+   pin_crawler_start_current_prefix, pin_crawler_process_prefixdir,
+   pin_crawler_serializer_save, pin_crawler_serializer_load, pin_crawler_dump_json_to_file, pin_fileutil_move_into_place)
   = ("b6e7496ea0e4704b", "607a50e7d677f555", "ae0364c91a284800", "44afc06d09dceaf9",
-     "575847e737b9edfe", "1443de8d6466311a")%string.
+     "575847e737b9edfe", "1443de8d6466311a",
+     "e5476169c0fdb179", "33f12c289e12c608", "20869b24a707cdbc", "184ed20bb14167b5")%string.
 Proof. reflexivity. Qed.
 Print Assumptions crawler_pins.
 
